@@ -203,7 +203,7 @@ class Intersection:
         """
         tmin, tmax = limits[0]
         umin, umax = limits[1]
-        for _ in range(10):
+        for _ in range(50):
             diff = curvesa[0].eval(pair[0])
             dati = curvesa[1].eval(pair[0])
             ddati = curvesa[2].eval(pair[0])
@@ -233,7 +233,7 @@ class Intersection:
                 pair[1] = umax
             if np.linalg.norm(deltapair) < 1e-9:
                 return tuple(pair)  # convergence
-        return tuple(pair)
+        return tuple()  # no convergence
 
     @staticmethod
     def bcurve_and_bcurve(beziera: Curve, bezierb: Curve) -> Tuple[float, float]:
